@@ -1,7 +1,7 @@
 (* C04 — Two-stage lazy indexing of dask arrays equals composed outer indexing, lazily.  Only statements here. *)
 From Coq Require Import ZArith List Bool Permutation.
-From KV Require Import Base.Sx Gen.Generated Model.DaskIdx Model.DaskJoint Model.DaskLazy Proofs.DaskIdxP
-  Proofs.DaskSliceP Proofs.DaskReadsP Proofs.DaskTwoStageP Proofs.DaskJointP Proofs.DaskLazyP.
+From KV Require Import Base.Sx Gen.Generated Model.DaskIdx Model.DaskJoint Model.DaskLazy Model.DaskGen Proofs.DaskIdxP
+  Proofs.DaskGenP Proofs.DaskSliceP Proofs.DaskReadsP Proofs.DaskTwoStageP Proofs.DaskJointP Proofs.DaskLazyP.
 Import ListNotations.
 Open Scope Z_scope.
 
@@ -299,3 +299,19 @@ Theorem C04_dataset_skeleton :
   c04_get_via_dataset = true /\ c04_len_via_dataset = true.
 Proof. exact z_skeleton. Qed.
 Print Assumptions C04_dataset_skeleton.
+
+(* ---- the helper functions as translated (Model/DaskGen.v) ----
+   _range_to_slice re-assembled from the tests / default / returned slice found in the source, _dask_oindex with the
+   axis step found in the source and the cull threshold of dask_getitem ARE the hand-written models the theorems
+   above speak about (an edit of one of those expressions changes the generated definition and this stops checking;
+   an edit of the statement skeletons of dask_getitem / _dask_oindex / _simplify_index is refused by the translator). *)
+Theorem C04_helpers_as_translated :
+  (forall l, g_range_to_slice l = d_range_to_slice l) /\
+  (forall ixs a axis, g_oindex_seq a ixs (Z.of_nat axis) = d_oindex_seq a ixs axis) /\
+  (forall a b, c04_cull_test a b = (2 * a <? b)) /\
+  (forall fuel st, g_culled_steps fuel st = j_culled_steps fuel st) /\
+  c04_simplify_loop_as_modelled = true.
+Proof.
+  exact (conj g_range_to_slice_eq (conj g_oindex_seq_eq (conj g_cull_test_eq (conj g_culled_steps_eq g_skeletons)))).
+Qed.
+Print Assumptions C04_helpers_as_translated.
